@@ -31,6 +31,7 @@ func c12(c *Ctx) {
 	c12FreshSession(c)
 	c12ReplyPerRequest(c)
 	c12AttemptsNotCapped(c)
+	c12UserRecorded(c)
 }
 
 // ---------- helpers
@@ -96,22 +97,30 @@ func c12SSH(c *Ctx) {
 	if !c.Anchor(h != nil, "ssh-password", "(*ssh.sshSimulatorService).Handle") {
 		return
 	}
-	// the closure stored into ServerConfig.PasswordCallback
+	// the closure stored into ServerConfig.PasswordCallback, in Handle or in a method of the service it calls to build the config
 	var cb *ssa.Function
-	for _, b := range h.Blocks {
-		for _, in := range b.Instrs {
-			st, ok := in.(*ssa.Store)
-			if !ok {
-				continue
-			}
-			fa, ok := st.Addr.(*ssa.FieldAddr)
-			if !ok || fieldNameOf(fa) != "PasswordCallback" {
-				continue
-			}
-			if mc, ok := st.Val.(*ssa.MakeClosure); ok {
-				cb, _ = mc.Fn.(*ssa.Function)
-			} else if f, ok := st.Val.(*ssa.Function); ok {
-				cb = f
+	cfgFns := []*ssa.Function{h}
+	for _, call := range Calls(h) {
+		if hf := call.Common().StaticCallee(); hf != nil && InRepo(hf) && hf.Blocks != nil && hf.Signature.Recv() != nil && h.Signature.Recv() != nil && types.Identical(hf.Signature.Recv().Type(), h.Signature.Recv().Type()) {
+			cfgFns = append(cfgFns, hf)
+		}
+	}
+	for _, cf := range cfgFns {
+		for _, b := range cf.Blocks {
+			for _, in := range b.Instrs {
+				st, ok := in.(*ssa.Store)
+				if !ok {
+					continue
+				}
+				fa, ok := st.Addr.(*ssa.FieldAddr)
+				if !ok || fieldNameOf(fa) != "PasswordCallback" {
+					continue
+				}
+				if mc, ok := st.Val.(*ssa.MakeClosure); ok {
+					cb, _ = mc.Fn.(*ssa.Function)
+				} else if f, ok := st.Val.(*ssa.Function); ok {
+					cb = f
+				}
 			}
 		}
 	}
@@ -1286,6 +1295,18 @@ func c12AttemptsNotCapped(c *Ctx) {
 				continue
 			}
 			cfg, ok := c15Root(call.Common().Args[1]).(*ssa.Alloc)
+			cfgFn := fn
+			if !ok {
+				// the config comes from a method of the service that builds it (`s.serverConfig(…)`): judged there, and the
+				// store has to lie on every path to that method's return
+				if hc, isC := c15Root(call.Common().Args[1]).(*ssa.Call); isC {
+					if hf := hc.Call.StaticCallee(); hf != nil && InRepo(hf) && hf.Blocks != nil && len(Returns(hf)) == 1 {
+						if a2, isA := c15Root(RetVals(Returns(hf)[0])[0]).(*ssa.Alloc); isA {
+							cfg, ok, cfgFn = a2, true, hf
+						}
+					}
+				}
+			}
 			if !ok {
 				continue
 			}
@@ -1311,7 +1332,7 @@ func c12AttemptsNotCapped(c *Ctx) {
 				}
 			}
 			// the property names the ssh simulator (ssh-auth and ssh-jail never accept a password / need an external jail)
-			root := fn
+			root := cfgFn
 			for root.Parent() != nil {
 				root = root.Parent()
 			}
@@ -1327,11 +1348,15 @@ func c12AttemptsNotCapped(c *Ctx) {
 				if k, isK := ConstInt(st.Val); isK {
 					okVal = k < 0
 				} else if ld, isLd := st.Val.(*ssa.UnOp); isLd && ld.Op == token.MUL {
-					if fa, isFA := ld.X.(*ssa.FieldAddr); isFA && c15Root(fa.X) == ssa.Value(fn.Params[0]) {
+					if fa, isFA := ld.X.(*ssa.FieldAddr); isFA && c15Root(fa.X) == ssa.Value(cfgFn.Params[0]) {
 						okVal = true // the service's configured value
 					}
 				}
-				dom := st.Block() == call.Block() && before(st, call) || st.Block().Dominates(call.Block())
+				var use ssa.Instruction = call
+				if cfgFn != fn {
+					use = Returns(cfgFn)[0]
+				}
+				dom := st.Block() == use.Block() && before(st, use) || st.Block().Dominates(use.Block())
 				if okVal && dom {
 					good = true
 				} else if !dom {
@@ -1344,4 +1369,42 @@ func c12AttemptsNotCapped(c *Ctx) {
 		}
 	}
 	c.Floor(rule, 1, "ssh-simulator")
+}
+
+// c12UserRecorded: PASS checks the password against the name the LAST USER command gave. USER therefore records its
+// argument on every path, before it answers: a path that answers without recording (a "logged in already" shortcut)
+// leaves the name of an earlier USER pending, and the next PASS is evaluated for that user – a configured pair is
+// refused, or a pair that is not configured (this name, that user's password) is accepted.
+func c12UserRecorded(c *Ctx) {
+	p := c.P
+	const rule = "ftp-user-recorded"
+	ex := p.Method("services/ftp", "commandUser", "Execute")
+	if !c.Anchor(ex != nil && ex.Blocks != nil && len(ex.Params) == 3, rule, "(ftp.commandUser).Execute") {
+		return
+	}
+	// the pending-user field: the string field of Conn that Execute stores its parameter into
+	var stores []*ssa.Store
+	for _, b := range ex.Blocks {
+		for _, in := range b.Instrs {
+			st, ok := in.(*ssa.Store)
+			if !ok || st.Val != ssa.Value(ex.Params[2]) {
+				continue
+			}
+			if fa, isFA := st.Addr.(*ssa.FieldAddr); isFA && fa.X == ssa.Value(ex.Params[1]) {
+				stores = append(stores, st)
+			}
+		}
+	}
+	if !c.Check(len(stores) >= 1, rule, "USER stores its argument in the session", p.Pos(ex.Pos()), "", "commandUser.Execute no longer records the requested user name in the session") {
+		return
+	}
+	for i, r := range Returns(ex) {
+		ok := false
+		for _, st := range stores {
+			if st.Block() == r.Block() || st.Block().Dominates(r.Block()) {
+				ok = true
+			}
+		}
+		c.Check(ok, rule, fmt.Sprintf("USER return[%d]", i), p.InstrPos(r), "the requested name is recorded on the way to every return", "USER can answer and return without recording the requested name: the name of an earlier USER stays pending and the next PASS is checked against that user – the outcome of an attempt then depends on earlier attempts of the connection")
+	}
 }
